@@ -31,6 +31,7 @@ pub enum Error {
     InvalidFloat,
     ExpectBinOpToken,
     NestingTooDeep(usize),
+    ArithmeticFault(String),
 }
 
 #[cfg(not(tarpaulin_include))]
@@ -68,6 +69,11 @@ impl fmt::Display for Error {
             InvalidInteger => write!(f, "invalid integer"),
             InvalidFloat => write!(f, "invalid float"),
             ExpectBinOpToken => write!(f, "expect bin op token"),
+            ArithmeticFault(op) => write!(
+                f,
+                "{}: division by zero, overflow or shift count out of range",
+                op
+            ),
             NestingTooDeep(max) => write!(f, "expression nested deeper than {}", max),
         }
     }
